@@ -173,6 +173,7 @@ StepViolations(e) ==
                 ~\E i \in 1..e.thr : i <= Len(armq[e.a]) /\ armq[e.a][i] = n
           THEN {"OnlyDueRemoved"} ELSE {})
     \cup (IF e.op = "ClosureEnd" /\ e.flag /\ ~ConvergedLive THEN {"Converged"} ELSE {})
+    \cup (IF e.op = "ClosureEnd" /\ e.flag /\ ~ConvergedKnown THEN {"DepartureSpreads"} ELSE {})
     \cup (IF e.op = "ClosureEnd" /\ ~e.flag THEN {"ClosureBound"} ELSE {})
     \cup (IF e.op = "RecvDelta" /\ ~PullProgressFor(e.slot) THEN {"PullProgress"} ELSE {})
     \cup (IF e.pktmax > 0 /\ e.op \notin {"Encode", "EncodeDigest"} /\
